@@ -52,12 +52,9 @@ pub trait ChainStore: Send + Sync + Sized {
             return Some(raw_block.into_view());
         }
         let body = self.get_block_body(h);
-        let uncles = self
-            .get_block_uncles(h)
-            .expect("block uncles must be stored");
-        let proposals = self
-            .get_block_proposal_txs_ids(h)
-            .expect("block proposal_ids must be stored");
+        // the block may be deleted by another thread between these reads
+        let uncles = self.get_block_uncles(h)?;
+        let proposals = self.get_block_proposal_txs_ids(h)?;
         let extension_opt = self.get_block_extension(h);
 
         let block = if let Some(extension) = extension_opt {
